@@ -96,6 +96,21 @@ func (s Stamp) MarshalText() ([]byte, error) {
 	return []byte(fmt.Sprintf("%d.%d-%s", s.Major, s.Minor, s.Note)), nil
 }
 
+// Tagged is a text-unmarshalable struct (an atomic leaf for dials) whose
+// EXPORTED fields are reference-typed, so that shallow copies of it are
+// visible to the aliasing checks.
+type Tagged struct {
+	Labels []string
+	Meta   map[string]string
+	Ref    *int
+}
+
+// UnmarshalText implements encoding.TextUnmarshaler (comma separated labels).
+func (t *Tagged) UnmarshalText(b []byte) error {
+	t.Labels = strings.Split(string(b), ",")
+	return nil
+}
+
 // Pt is a small struct used as an element of collections.
 type Pt struct {
 	X, Y int
@@ -169,6 +184,7 @@ var baseTypes = map[string]reflect.Type{
 	"Labels":        reflect.TypeOf(Labels(nil)),
 	"Color":         reflect.TypeOf(Color("")),
 	"Stamp":         reflect.TypeOf(Stamp{}),
+	"Tagged":        reflect.TypeOf(Tagged{}),
 	"Pt":            reflect.TypeOf(Pt{}),
 	"Rec":           reflect.TypeOf(Rec{}),
 	"EmbA":          reflect.TypeOf(EmbA{}),
